@@ -151,6 +151,9 @@ fn check_ids(ids: &[u8], big_endian: bool) -> CheckResult {
                     .map(|e| e.context_id.clone())
                     .unwrap_or_default(),
             ];
+            if m.header.ecu_id.is_none() || m.extended_header.is_none() || m.storage_header.is_none() {
+                return Err(viol!("ids:field-absent", "message with id bytes {} (storage header, WEID and UEH set): an id field that is on the wire is reported as absent: header ECU id {:?}, extended header present {}, storage header present {}", hex_short(ids), m.header.ecu_id, m.extended_header.is_some(), m.storage_header.is_some()));
+            }
             let names = [
                 "storage ECU id",
                 "header ECU id",
